@@ -705,3 +705,57 @@ def deciding_test(cfg: CFG, node: ast.AST) -> Optional[Tuple[int, str]]:
                 if best is None or cfg.dominates(best[0], cand.id):
                     best = (cand.id, label)
     return best
+
+
+def key_function(repo, rel: str, func: Optional[ast.AST], key: ast.AST) -> Optional[Tuple[str, ast.AST]]:
+    """ (parameter name, returned expression) of a sort key given as a lambda or as the name of a one-parameter
+        function (nested in `func` or at module level) whose returned expressions are all the same after resolving
+        its locals """
+    if isinstance(key, ast.Lambda) and len(key.args.args) == 1:
+        return key.args.args[0].arg, key.body
+    if isinstance(key, ast.Name):
+        target = None
+        if func is not None:
+            for node in ast.walk(func):
+                if isinstance(node, ast.FunctionDef) and node.name == key.id and node is not func:
+                    target = node
+        if target is None and repo is not None:
+            for qual, node in repo.functions(rel):
+                if qual == key.id:
+                    target = node
+        if target is None or len(target.args.args) != 1:
+            return None
+        cfg = CFG(target)
+        values = []
+        for ret in [n for n in walk_local(target) if isinstance(n, ast.Return) and n.value is not None]:
+            values.append(inline_reaching(cfg, ret, ret.value))
+        if values and len({txt(v) for v in values}) == 1:
+            return target.args.args[0].arg, values[0]
+    return None
+
+
+_NEG = {"<": ">=", "<=": ">", ">": "<=", ">=": "<", "==": "!=", "!=": "=="}
+_FLIP = {"<": ">", "<=": ">=", ">": "<", ">=": "<=", "==": "==", "!=": "!="}
+_OPS = {ast.Lt: "<", ast.LtE: "<=", ast.Gt: ">", ast.GtE: ">=", ast.Eq: "==", ast.NotEq: "!="}
+
+
+def effective_compare(expr: ast.AST, truth: bool = True) -> Optional[Tuple[ast.AST, str, ast.AST]]:
+    """ (left, op, right) of a single two-operand comparison as it holds when `expr` has the given truth value:
+        `not a <= b` true and `a <= b` false both give (a, '>', b) """
+    while isinstance(expr, ast.UnaryOp) and isinstance(expr.op, ast.Not):
+        expr, truth = expr.operand, not truth
+    if not (isinstance(expr, ast.Compare) and len(expr.ops) == 1 and type(expr.ops[0]) in _OPS):
+        return None
+    op = _OPS[type(expr.ops[0])]
+    if not truth:
+        op = _NEG[op]
+    return expr.left, op, expr.comparators[0]
+
+
+def oriented(compare: Tuple[ast.AST, str, ast.AST], is_subject) -> Optional[Tuple[ast.AST, str, ast.AST]]:
+    """ the comparison turned so that the operand satisfying is_subject is on the left (None if neither or both do) """
+    left, op, right = compare
+    a, b = bool(is_subject(left)), bool(is_subject(right))
+    if a == b:
+        return None
+    return (left, op, right) if a else (right, _FLIP[op], left)
